@@ -13,7 +13,7 @@
 // numbers its requests independently of the Rpc, preferably with exactly the ids the Rpc uses for its own requests.
 //
 // ops:  cfg proto timeout_s | request sync sarg pay | then kind sync sarg | notify pay | deliver k how pay |
-//       unknown sel how | advance ms | peerreq idsel kind pay delay_ms | peernotify kind pay
+//       unknown sel how | advance ms | peerreq idsel kind pay delay_ms | peernotify kind pay | relife timeout_s
 //       (see NOTES.md for the argument tables)
 //
 // Oracle (all on observed behaviour, no model of the timer ring):
@@ -28,6 +28,12 @@
 //   * after the final drain (clock far beyond every deadline) every request has completed exactly once;
 //   * all of the above holds whatever the peer sends as requests of its own (no completion callback runs while a
 //     peer request is being delivered; serving a peer request never completes, delays or shortens an own request);
+//   * several lives of one Rpc object (`relife`: cleanup() + initialize() on the same proto, requests outstanding): a
+//     response that belongs to a request of an EARLIER life — late or duplicate, delivered in a later life — is ignored:
+//     it completes nothing, in particular not a request of the current life (each response carries the identity of the
+//     request the peer answers, not just a number); requests of the current life keep every clause above, including
+//     the timeout error.  A request that was outstanding at cleanup() is abandoned: its callback must not run for a
+//     response any more (the code drops it; a timeout error for it would be tolerated, once);
 //   * serving side, only what rpc.h / rpc.cpp / rpc_test.cpp document: a registered service is invoked exactly once
 //     per peer request with the peer's id (0 for a notification) and params; a peer request with an id gets at most
 //     one response; unregistered method -> exactly one error -32601, at once; service returned true -> exactly one
@@ -48,11 +54,11 @@ using namespace c14;
 
 namespace {
 
-enum { CFG, REQUEST, THEN, NOTIFY, DELIVER, UNKNOWN, ADVANCE, PEERREQ, PEERNOTIFY, NOPS };
+enum { CFG, REQUEST, THEN, NOTIFY, DELIVER, UNKNOWN, ADVANCE, PEERREQ, PEERNOTIFY, RELIFE, NOPS };
 enum { SY_NONE, SY_RESULT, SY_ERROR, SY_TWICE, SY_OTHER, SY_UNKNOWN, SY_PARENT, SY_PEERREQ, NSYNC };
 enum { K_NOSUCH, K_SYNC_OK, K_SYNC_ERR, K_DEFER_OK, K_DEFER_ERR, K_DEFER_NEVER, NKIND };
 const int kTimeoutErr = -32000;
-const int kMaxReqs = 48, kMaxChain = 6, kMaxIncoming = 24;
+const int kMaxReqs = 48, kMaxChain = 6, kMaxIncoming = 24, kMaxLives = 4;
 const int kMethodNotFound = -32601;
 
 struct Done { uint64_t t; int errcode; Json result; int ctx; };
@@ -63,6 +69,7 @@ struct Req {
   bool issued = false; int wire_id = 0; uint64_t t_issue = 0; int frames = 0;
   std::vector<Done> done;
   bool in_timeout_cb = false;                 // issued from inside a timeout completion
+  int life = 0, timeout_s = 1, ordinal = 0;   // life of the Rpc object it was issued in, the timeout of that life, its number within that life (1, 2, ...)
 };
 struct Item { int64_t wire_id; int target; bool is_error; int errcode; Json payload; bool pending_at_start = false; };
 struct Delivery { std::vector<Item> items; int incoming = -1; };   // incoming >= 0: a peer REQUEST is being delivered (no items)
@@ -73,7 +80,8 @@ struct Incoming {
   std::string method; Json params;
   int invoked = 0;                 // service invocations
   int errcode = 0; Json result;    // what the service / the later respond() call answers
-  bool answered = false, in_time = false; uint64_t t_answer = 0;
+  bool answered = false, in_time = false, abandoned = false; uint64_t t_answer = 0;
+  int life = 0, timeout_s = 1;
   std::vector<Resp> resps;         // response frames the Rpc put on the wire for this id
 };
 
@@ -110,11 +118,13 @@ struct World {
   std::string err;
   uint64_t prev_now = 0;                      // clock before the most recent step
   int serial = 0, max_wire_id = 0, notifies = 0, notify_frames = 0;
+  int life = 0, life_reqs = 0;                 // current life of the Rpc object, requests with a callback issued in it
   // shape statistics
   bool st_late = false, st_dup = false, st_unknown = false, st_pending_resp = false, st_sync = false, st_timeout = false, st_nested = false,
        st_nested_in_timeout = false, st_reentrant_dup = false, st_batch = false, st_err_resp = false, st_future_id = false, st_other_in_cb = false, st_wide_id = false,
        st_inc_nosuch = false, st_inc_sync = false, st_inc_defer_answered = false, st_inc_defer_late = false, st_inc_never = false, st_inc_notify = false,
-       st_inc_collide = false, st_inc_in_send = false, st_notif_nosuch_answered = false;
+       st_inc_collide = false, st_inc_in_send = false, st_notif_nosuch_answered = false,
+       st_relife = false, st_relife_outstanding = false, st_stale = false, st_stale_dup = false, st_stale_ordinal = false, st_timeout_later_life = false, st_resp_later_life = false;
 
   World() : clk(1000000) {}
 
@@ -136,14 +146,24 @@ struct World {
       return;
     }
     q.done.push_back(Done{clk.now, ec, r, ctx});
+    if (q.life != life) {   // outstanding at cleanup(): abandoned
+      if (ctx >= 0) fail(nameOf(k) + " was outstanding when the Rpc was cleaned up (life " + std::to_string(q.life) + "), yet in life " + std::to_string(life) + " it completed with " + showDone(ec, r) + " for a late response");
+      else if (ec != kTimeoutErr || !r.is_null()) fail(nameOf(k) + " of life " + std::to_string(q.life) + " completed with " + showDone(ec, r) + " in life " + std::to_string(life) + " although no response was being delivered");
+      return;
+    }
+    if (life > 0) { if (ctx >= 0) st_resp_later_life = true; else st_timeout_later_life = true; }
+    const int timeout_s = q.timeout_s;   // (the timeout of the life the request belongs to)
     if (ctx >= 0) {
       const Item *it = nullptr;
       for (auto &x : delivs[ctx].items) if (x.target == k) { it = &x; break; }
       if (!it && delivs[ctx].incoming >= 0) {
         fail(nameOf(k) + " completed with " + showDone(ec, r) + " while the peer's own request (id " + std::to_string(incs[delivs[ctx].incoming].id) + ", method " + incs[delivs[ctx].incoming].method + ") was being delivered");
       } else if (!it) {
-        std::string ids; for (auto &x : delivs[ctx].items) ids += (ids.empty() ? "" : ",") + std::to_string(x.wire_id);
-        fail(nameOf(k) + " completed with " + showDone(ec, r) + " while a response for id " + ids + " (not its id) was being delivered");
+        std::string ids; const Item *same = nullptr;
+        for (auto &x : delivs[ctx].items) { ids += (ids.empty() ? "" : ",") + std::to_string(x.wire_id); if (x.wire_id == q.wire_id && x.target >= 0) same = &x; }
+        if (same) fail(nameOf(k) + " of life " + std::to_string(q.life) + " completed with " + showDone(ec, r) + ": that is the peer's answer to request #" + std::to_string(same->target) + " of life " +
+                       std::to_string(reqs[same->target].life) + " (same number on the wire, an earlier life of the Rpc object) - a late response of an earlier life must be ignored");
+        else fail(nameOf(k) + " completed with " + showDone(ec, r) + " while a response for id " + ids + " (not its id) was being delivered");
       } else if (it->is_error ? !(ec == it->errcode && r.is_null()) : !(ec == 0 && r == it->payload)) {
         fail(nameOf(k) + " completed with " + showDone(ec, r) + ", but the response delivered for it was " +
              (it->is_error ? "error " + std::to_string(it->errcode) : "result " + dumpJ(it->payload)));
@@ -179,7 +199,7 @@ struct World {
   // ------------------------------------------------------------------------------------------------ issue side
   void issue(int k) {
     Req &q = reqs[k];
-    q.issued = true; q.t_issue = clk.now;
+    q.issued = true; q.t_issue = clk.now; q.life = life; q.timeout_s = timeout_s; q.ordinal = ++life_reqs;
     std::string method = "m" + std::to_string(k);
     Json params = paramsFor(q.pay, k);
     issuing.push_back(k); issuing_params.push_back(params); issuing_method.push_back(method);
@@ -220,7 +240,7 @@ struct World {
     want["id"] = id;
     if (js != want) { fail("request() wrote " + dumpJ(js) + ", expected " + dumpJ(want)); return; }
     if (id == 0) { fail("request() with a callback used id 0 (the id of notifications)"); return; }
-    for (size_t i = 0; i < reqs.size(); ++i) if ((int)i != k && reqs[i].issued && reqs[i].wire_id == id) { fail("request() reused wire id " + std::to_string(id)); return; }
+    for (size_t i = 0; i < reqs.size(); ++i) if ((int)i != k && reqs[i].issued && reqs[i].life == life && reqs[i].wire_id == id) { fail("request() reused wire id " + std::to_string(id) + " within one life"); return; }
     q.wire_id = id; if (id > max_wire_id) max_wire_id = id;
     // synchronous reaction of the peer (before request() returns)
     switch (q.sync) {
@@ -317,7 +337,7 @@ struct World {
     incs.emplace_back();
     int k = (int)incs.size() - 1;
     Incoming &in = incs[k];
-    in.has_id = has_id; in.id = has_id ? id : 0; in.kind = kind; in.pay = pay; in.t_in = clk.now; in.delay = delay;
+    in.has_id = has_id; in.id = has_id ? id : 0; in.kind = kind; in.pay = pay; in.t_in = clk.now; in.delay = delay; in.life = life; in.timeout_s = timeout_s;
     in.method = kind == K_NOSUCH ? "nosuch" : kind <= K_SYNC_ERR ? "svc_sync" : "svc_defer";
     in.params = paramsFor(pay, k);
     ++serial;
@@ -348,16 +368,31 @@ struct World {
       Incoming &in = incs[k];
       if (!in.has_id || (in.kind != K_DEFER_OK && in.kind != K_DEFER_ERR) || in.answered || clk.now < in.t_in + in.delay) continue;
       in.answered = true; in.t_answer = clk.now;
-      in.in_time = clk.now - in.t_in <= (uint64_t)(timeout_s - 1) * 1000;   // the respond timeout cannot have passed yet
+      in.in_time = clk.now - in.t_in <= (uint64_t)(in.timeout_s - 1) * 1000;   // the respond timeout cannot have passed yet
       (in.in_time ? st_inc_defer_answered : st_inc_defer_late) = true;
       answering = (int)k;
       if (in.kind == K_DEFER_OK) { if (in.pay % 2) rpc->respond(in.id, 0, in.result); else rpc->respond(in.id, in.result); }
       else { if (in.pay % 2) rpc->respond(in.id, in.errcode, Json("must not be sent")); else rpc->respond(in.id, in.errcode); }
       answering = -1;
       if (in.in_time && in.resps.size() != 1)
-        fail("peer request id " + std::to_string(in.id) + ": respond() called " + std::to_string(clk.now - in.t_in) + " ms after the request (timeout " + std::to_string(timeout_s) +
+        fail("peer request id " + std::to_string(in.id) + ": respond() called " + std::to_string(clk.now - in.t_in) + " ms after the request (timeout " + std::to_string(in.timeout_s) +
              " s) put " + std::to_string(in.resps.size()) + " responses on the wire");
     }
+  }
+  void registerServices() {
+    rpc->addService("svc_sync", [this](int id, const Json &params, int &ec, Json &res) { return onService(false, id, params, ec, res); });
+    rpc->addService("svc_defer", [this](int id, const Json &params, int &ec, Json &res) { return onService(true, id, params, ec, res); });
+  }
+  // a new life of the same Rpc object on the same proto (link re-established): cleanup() + initialize(); top level of a loop pass only
+  void relife(int new_timeout) {
+    if (life + 1 >= kMaxLives || !err.empty()) return;
+    for (auto &q : reqs) if (q.issued && q.life == life && q.done.empty()) st_relife_outstanding = true;
+    rpc->cleanup();
+    if (new_timeout >= 1) timeout_s = new_timeout;
+    ++life; life_reqs = 0; st_relife = true;
+    rpc->initialize(proto.get(), timeout_s);
+    registerServices();   // cleanup() drops the services
+    for (auto &in : incs) if (in.has_id && (in.kind == K_DEFER_OK || in.kind == K_DEFER_ERR) && !in.answered) { in.answered = true; in.abandoned = true; }   // respond() for a request of an earlier life: undocumented, not generated
   }
   bool answersOutstanding() const { for (auto &in : incs) if (in.has_id && (in.kind == K_DEFER_OK || in.kind == K_DEFER_ERR) && !in.answered) return true; return false; }
   int pickOther(int sel, int self) const {
@@ -381,8 +416,12 @@ struct World {
     int d = (int)delivs.size();
     delivs.emplace_back();
     for (auto &it : items) {
-      it.pending_at_start = it.target >= 0 && reqs[it.target].done.empty();
+      it.pending_at_start = it.target >= 0 && reqs[it.target].done.empty() && reqs[it.target].life == life;
       if (it.target < 0) st_unknown = true;
+      else if (reqs[it.target].life != life) {   // the peer's answer to a request of an earlier life
+        st_stale = true; if (!reqs[it.target].done.empty()) st_stale_dup = true;
+        for (auto &q : reqs) if (q.issued && q.life == life && q.done.empty() && q.ordinal == reqs[it.target].ordinal) st_stale_ordinal = true;
+      }
       else if (it.pending_at_start) { st_pending_resp = true; if (it.is_error) st_err_resp = true; }
       else { bool by_timeout = reqs[it.target].done[0].errcode == kTimeoutErr && reqs[it.target].done[0].ctx < 0; if (by_timeout) st_late = true; else st_dup = true; }
     }
@@ -442,7 +481,7 @@ std::string run(const Scenario &s, CaseInfo &info) {
       case THEN: if (!w.chains.empty() && (int)w.chains.back().size() < kMaxChain && !tops.empty())
                    w.chains.back().push_back(ThenSpec{(int)op.in(0, 0, 1), (int)op.in(1, 0, NSYNC - 1), (int)op.in(2, 0, 63)});
                  break;
-      case NOTIFY: case DELIVER: case UNKNOWN: case ADVANCE: case PEERREQ: case PEERNOTIFY: tops.push_back(TopOp{op.code, &op}); break;
+      case NOTIFY: case DELIVER: case UNKNOWN: case ADVANCE: case PEERREQ: case PEERNOTIFY: case RELIFE: tops.push_back(TopOp{op.code, &op}); break;
       default: break;
     }
   }
@@ -454,8 +493,7 @@ std::string run(const Scenario &s, CaseInfo &info) {
   w.rpc.reset(new tbox::jsonrpc::Rpc(w.loop.get()));
   w.rpc->initialize(w.proto.get(), w.timeout_s);
   w.proto->setSendCallback([&w](const void *p, size_t n) { w.onSend(p, n); });
-  w.rpc->addService("svc_sync", [&w](int id, const Json &params, int &ec, Json &res) { return w.onService(false, id, params, ec, res); });
-  w.rpc->addService("svc_defer", [&w](int id, const Json &params, int &ec, Json &res) { return w.onService(true, id, params, ec, res); });
+  w.registerServices();
 
   // ---- micro steps: one op per loop pass; the clock moves in steps <= 1000 ms, each followed by two idle passes
   struct Step { int kind; int idx; uint64_t ms; };   // 0 = op, 1 = advance, 2 = idle
@@ -469,7 +507,7 @@ std::string run(const Scenario &s, CaseInfo &info) {
     } else steps.push_back({0, (int)i, 0});
   }
   size_t pc = 0; int idle_left = 0; uint64_t drained = 0;
-  auto anyPending = [&w]() { for (auto &q : w.reqs) if (q.issued && q.done.empty()) return true; return false; };
+  auto anyPending = [&w]() { for (auto &q : w.reqs) if (q.issued && q.life == w.life && q.done.empty()) return true; return false; };
   auto execOp = [&](const TopOp &t) {
     const Op &op = *t.op;
     switch (t.code) {
@@ -483,9 +521,16 @@ std::string run(const Scenario &s, CaseInfo &info) {
       case DELIVER: {
         std::vector<int> c; for (size_t i = 0; i < w.reqs.size(); ++i) if (w.reqs[i].issued && w.reqs[i].wire_id != 0) c.push_back((int)i);
         if (c.empty()) break;
-        w.deliverFor(op.arg(0) == -1 ? c.back() : c[(size_t)op.in(0, 0, 1 << 20) % c.size()], (int)op.in(1, 0, 4), true);   // -1: the most recent request
+        int pick = op.arg(0) == -1 ? c.back() : c[(size_t)op.in(0, 0, 1 << 20) % c.size()];   // -1: the most recent request
+        if (op.arg(0) == -2) {   // -2: a request of an earlier life, preferably one with the per-life number of a request that is pending now
+          pick = -1;
+          for (int i : c) if (w.reqs[i].life != w.life) { if (pick < 0) pick = i; for (auto &q : w.reqs) if (q.issued && q.life == w.life && q.done.empty() && q.ordinal == w.reqs[i].ordinal) pick = i; }
+          if (pick < 0) pick = c.back();
+        }
+        w.deliverFor(pick, (int)op.in(1, 0, 4), true);
         break; }
       case PEERREQ: w.peerRequest(true, w.pickPeerId((int)op.in(0, 0, 6)), (int)op.in(1, 0, NKIND - 1), (int)op.in(2, 0, 5), (uint64_t)op.in(3, 0, 7000)); break;
+      case RELIFE: w.relife((int)op.in(0, 0, 5)); break;
       case PEERNOTIFY: { static const int kinds[] = {K_NOSUCH, K_SYNC_OK, K_DEFER_NEVER}; w.peerRequest(false, 0, kinds[op.in(0, 0, 2)], (int)op.in(1, 0, 5), 0); break; }
       case UNKNOWN: w.deliverUnknown((int)op.in(0, 0, 7), (int)op.in(1, 0, 1)); break;
       default: break;
@@ -508,17 +553,18 @@ std::string run(const Scenario &s, CaseInfo &info) {
   if (err.empty())
     for (size_t k = 0; k < w.reqs.size(); ++k) {
       const Req &q = w.reqs[k];
-      if (q.issued && q.done.size() != 1) { err = w.nameOf((int)k) + ": completion callback ran " + std::to_string(q.done.size()) + " times by the final drain (clock " + std::to_string(w.clk.now - q.t_issue) + " ms past the request, timeout " + std::to_string(w.timeout_s) + " s)"; break; }
+      if (q.issued && q.life != w.life) continue;   // abandoned at a cleanup(): "at most once, and only the timeout error" is enforced in onDone
+      if (q.issued && q.done.size() != 1) { err = w.nameOf((int)k) + ": completion callback ran " + std::to_string(q.done.size()) + " times by the final drain (clock " + std::to_string(w.clk.now - q.t_issue) + " ms past the request, life " + std::to_string(q.life) + ", timeout " + std::to_string(q.timeout_s) + " s)"; break; }
     }
   // shape: a deferred peer request that is not answered before its respond timeout, carrying the id of an own request
   // that was issued >= 1 s later (but before that respond timeout can have passed) and is still pending when it has passed
   bool shape_collision_expiry = false;
   for (auto &in : w.incs) {
     if (!in.has_id || in.kind < K_DEFER_OK) continue;
-    uint64_t expiry = in.t_in + (uint64_t)w.timeout_s * 1000;
-    if (in.answered && in.t_answer < expiry) continue;
+    uint64_t expiry = in.t_in + (uint64_t)in.timeout_s * 1000;
+    if (in.abandoned || (in.answered && in.t_answer < expiry)) continue;
     for (auto &q : w.reqs)
-      if (q.issued && q.wire_id == in.id && q.t_issue >= in.t_in + 1000 && q.t_issue < expiry && !q.done.empty() && q.done[0].t >= expiry) shape_collision_expiry = true;
+      if (q.issued && q.life == in.life && q.wire_id == in.id && q.t_issue >= in.t_in + 1000 && q.t_issue < expiry && !q.done.empty() && q.done[0].t >= expiry) shape_collision_expiry = true;
   }
   // ---- tear down as the examples do
   w.rpc->cleanup();
@@ -545,6 +591,13 @@ std::string run(const Scenario &s, CaseInfo &info) {
   info.cls_if(w.st_other_in_cb, "other_request_completed_inside_a_callback");
   info.cls_if(w.st_batch, "batch_response");
   info.cls_if(w.notifies > 0, "notify");
+  info.cls_if(w.st_relife, "rpc_object_reused(cleanup+initialize)");
+  info.cls_if(w.st_relife_outstanding, "cleanup_with_requests_outstanding");
+  info.cls_if(w.st_stale, "response_of_earlier_life_delivered_in_later_life");
+  info.cls_if(w.st_stale_dup, "duplicate_response_of_earlier_life_delivered_in_later_life");
+  info.cls_if(w.st_stale_ordinal, "response_of_earlier_life_while_request_with_same_per_life_number_is_pending");
+  info.cls_if(w.st_timeout_later_life, "timeout_fired_in_later_life");
+  info.cls_if(w.st_resp_later_life, "response_completes_request_in_later_life");
   info.cls_if(!w.incs.empty(), "peer_sends_requests");
   info.cls_if(w.st_inc_nosuch, "peer_request_unregistered_method");
   info.cls_if(w.st_inc_sync, "peer_request_answered_synchronously");
@@ -573,7 +626,25 @@ Scenario expand(uint64_t seed) {
   auto sync = [&]() { return r.pick({{16, SY_NONE}, {4, SY_RESULT}, {2, SY_ERROR}, {2, SY_TWICE}, {4, SY_OTHER}, {2, SY_UNKNOWN}, {4, SY_PARENT}, {1, SY_PEERREQ}}); };
   // (half of them right at the start: later on, nested requests issued by timeout callbacks during the wait often take the id first)
   int collide_at = collide ? (r.chance(1, 2) ? 0 : (int)r.rng(0, n - 1)) : -1;
+  // a quarter of the cases: the Rpc object is re-used (cleanup + initialize) while requests are outstanding, and the peer's answers to
+  // requests of the earlier life arrive while requests with the same per-life number are pending in the new life
+  bool relife = r.chance(1, 4);
+  int relife_at = relife ? (r.chance(1, 2) ? (collide_at == 0 ? 1 : 0) : (int)r.rng(0, n - 1)) : -1;
+  if (relife_at == collide_at) relife_at = -1;
   for (int i = 0; i < n; ++i) {
+    if (i == relife_at) {
+      int k = (int)r.pick({{3, 1}, {2, 2}, {1, 3}});
+      for (int j = 0; j < k; ++j) mk(REQUEST, {r.pick({{5, SY_NONE}, {1, SY_RESULT}}), r.rng(0, 63), r.rng(0, 5)});
+      if (r.chance(1, 3)) mk(ADVANCE, {r.rng(1, 900)});
+      if (r.chance(1, 4)) mk(DELIVER, {r.rng(0, 1000), 0, 0});   // some of them answered in time: their late copies are duplicates
+      mk(RELIFE, {r.pick({{2, 0}, {1, 1}, {1, 2}, {1, 3}})});
+      int k2 = (int)r.rng(1, k);
+      for (int j = 0; j < k2; ++j) mk(REQUEST, {SY_NONE, r.rng(0, 63), r.rng(0, 5)});
+      int nd = (int)r.rng(1, 3);
+      for (int j = 0; j < nd; ++j) mk(DELIVER, {r.pick({{3, -2}, {1, r.rng(0, 1000)}}), r.pick({{4, 0}, {1, 1}, {1, 3}}), 0});
+      if (r.chance(2, 3)) mk(DELIVER, {-1, r.pick({{3, 0}, {1, 1}}), 0});   // the new request's own answer
+      continue;
+    }
     if (i == collide_at) {
       // the peer sends a request that is deferred (never / too late answered) under the id the Rpc will use next; the own request
       // follows 1 .. timeout-0.1 s later and is still unanswered when the peer request's respond timeout passes; then its response arrives
@@ -586,7 +657,7 @@ Scenario expand(uint64_t seed) {
       if (r.chance(3, 4)) mk(DELIVER, {-1, r.pick({{3, 0}, {1, 1}}), 0});
       continue;
     }
-    switch (r.pick({{12, REQUEST}, {2, NOTIFY}, {10, DELIVER}, {2, UNKNOWN}, {10, ADVANCE}, {5, PEERREQ}, {1, PEERNOTIFY}})) {
+    switch (r.pick({{12, REQUEST}, {2, NOTIFY}, {10, DELIVER}, {2, UNKNOWN}, {10, ADVANCE}, {5, PEERREQ}, {1, PEERNOTIFY}, {1, RELIFE}})) {
       case REQUEST: {
         mk(REQUEST, {sync(), r.rng(0, 63), r.rng(0, 5)});
         int nt = (int)r.pick({{5, 0}, {3, 1}, {2, 2}, {1, 4}});
@@ -598,6 +669,7 @@ Scenario expand(uint64_t seed) {
       case PEERREQ: mk(PEERREQ, {r.pick({{4, 0}, {2, 1}, {3, 2}, {2, 3}, {1, 4}, {1, 5}, {1, 6}}), r.rng(0, NKIND - 1),
                                  r.rng(0, 5), r.pick({{2, 0}, {3, r.rng(0, (timeout - 1) * 1000)}, {1, timeout * 1000 + r.rng(-1000, 1000)}, {1, r.rng(0, 7000)}})}); break;
       case PEERNOTIFY: mk(PEERNOTIFY, {r.rng(0, 2), r.rng(0, 5)}); break;
+      case RELIFE: mk(RELIFE, {r.pick({{2, 0}, {1, r.rng(1, 5)}})}); break;
       default: mk(ADVANCE, {r.pick({{2, r.rng(1, 999)}, {2, 1000}, {2, timeout * 1000 - 1000 + r.rng(-1, 1)}, {2, timeout * 1000 + r.rng(-1, 1)}, {1, r.rng(1, 7000)}})}); break;
     }
   }
@@ -607,8 +679,8 @@ Scenario expand(uint64_t seed) {
 
 SubDef def = [] {
   SubDef d; d.name = "rpc_once";
-  d.op_names = {"cfg", "request", "then", "notify", "deliver", "unknown", "advance", "peerreq", "peernotify"};
-  d.op_arity = {2, 3, 3, 1, 3, 2, 1, 4, 2};
+  d.op_names = {"cfg", "request", "then", "notify", "deliver", "unknown", "advance", "peerreq", "peernotify", "relife"};
+  d.op_arity = {2, 3, 3, 1, 3, 2, 1, 4, 2, 1};
   d.nt_rule = "a response was delivered for a request that had already completed with the timeout error, and a completion callback issued a further request or notification";
   d.run = run;
 #ifndef VERIF_ENGINE_FUZZ
